@@ -69,4 +69,47 @@ def finish (L : Layout) (constraints : List Nat) (flat x : List α) (adjust : Bo
   let x' := if adjust then x.take (x.length - 2) else x
   scatter free flat x'
 
+/-! ### before and after the fit: promotion of the candidate, wrapping of the position
+
+  Python                                                                     model
+  if not isinstance(droplet, DiffuseDroplet): droplet = DiffuseDroplet.from_droplet(droplet)
+  if droplet.interface_width is None: droplet.interface_width = grid.typical_discretization
+                                                                             `promote` (a width that is SET, even 0, is kept)
+  coords = grid.transform(position, "cartesian", "grid")
+  position = grid.transform(grid.normalize_point(coords), "grid", "cartesian")  `wrapPos` (periodic axes: floored modulo) -/
+
+/-- the candidate as the code receives it (`width = none`: unset, i.e. `None`/NaN or a class without a width) -/
+structure Cand (α : Type) where
+  pos : List α
+  radius : α
+  width : Option α
+  amps : List α
+
+/-- flat record of the droplet that is fitted -/
+def promote (dx : α) (c : Cand α) : List α :=
+  c.pos ++ [c.radius, c.width.getD dx] ++ c.amps
+
+class HasFloor (α : Type) where
+  floor : α → α
+
+instance : HasFloor Float := ⟨Float.floor⟩
+instance : HasFloor Rat := ⟨fun q => (q.floor : Rat)⟩
+
+/-- `(x - lo) % len + lo` with numpy's floored modulo -/
+def wrap1 [Add α] [Sub α] [Mul α] [Div α] [HasFloor α] (lo len x : α) : α :=
+  ((x - lo) - len * HasFloor.floor ((x - lo) / len)) + lo
+
+/-- per axis: `none` = not periodic (coordinate kept), `some (lo, len)` = periodic axis -/
+def wrapPos [Add α] [Sub α] [Mul α] [Div α] [HasFloor α] : List (Option (α × α)) → List α → List α
+  | some (lo, len) :: axes, x :: xs => wrap1 lo len x :: wrapPos axes xs
+  | none :: axes, x :: xs => x :: wrapPos axes xs
+  | _, xs => xs
+
+/-- everything `refine_droplet` does to the record around the solver call: the flat record that is
+returned for the solver's answer `x` -/
+def refineResult [Add α] [Sub α] [Mul α] [Div α] [HasFloor α] (L : Layout) (constraints : List Nat)
+    (axes : List (Option (α × α))) (dx : α) (c : Cand α) (x : List α) (adjust : Bool) : List α :=
+  let out := finish L constraints (promote dx c) x adjust
+  wrapPos axes (out.take L.dim) ++ out.drop L.dim
+
 end DV.Refine
